@@ -29,6 +29,7 @@ TL(n) == <<"long", OfInt(n)>>
 TU1 == <<"ent", "User", "u1">>
 TU2 == <<"ent", "User", "u2">>
 TU3 == <<"ent", "User", "u3">>      \* referenced but never has a record
+TU4 == <<"ent", "User", "u4">>      \* always present; u2's manager when u2 has its optional data: a user two hops from a Doc owned by u2
 TG == <<"ent", "Group", "g">>
 TG2 == <<"ent", "Group", "g2">>
 TD == <<"ent", "Doc", "d">>
@@ -46,12 +47,13 @@ U1Of(opt, mgr, inner, tags, ing) ==
              \cup (IF mgr = "none" THEN {} ELSE {<<"mgr", IF mgr = "u2" THEN TU2 ELSE TU3>>})),
        IF tags THEN {<<TagK, TL(1)>>} ELSE {},
        IF ing = "g" THEN {TG} ELSE IF ing = "g2" THEN {TG2} ELSE {})
-U2Of(opt) == ERec(FunOf({<<"n", <<"long", I64Max>>>>, <<"s", <<"str", <<122>>>>>>, <<"rec", <<"rec", <<>>>>>>} \cup (IF opt THEN {<<"opt", TL(5)>>} ELSE {})), {}, {})
+U2Of(opt) == ERec(FunOf({<<"n", <<"long", I64Max>>>>, <<"s", <<"str", <<122>>>>>>, <<"rec", <<"rec", <<>>>>>>} \cup (IF opt THEN {<<"opt", TL(5)>>, <<"mgr", TU4>>} ELSE {})), {}, {})
+U4Rec == ERec(FunOf({<<"n", TL(4)>>, <<"s", <<"str", <<122>>>>>>, <<"rec", <<"rec", [inner |-> TL(2)]>>>>}), {<<TagK, TL(9)>>}, {TG2})
 DOf(owner) == ERec([owner |-> owner, pub |-> <<"bool", TRUE>>], {}, {})
 NoData == ERec(<<>>, {}, {})
 
 StoreOf(u1, u2, d) ==
-  (TU1 :> u1) @@ (TU2 :> u2) @@ (TD :> d) @@ (TG :> NoData) @@ (TG2 :> NoData)
+  (TU1 :> u1) @@ (TU2 :> u2) @@ (TU4 :> U4Rec) @@ (TD :> d) @@ (TG :> NoData) @@ (TG2 :> NoData)
   @@ (TView :> ERec(<<>>, {}, {TAll})) @@ (TEdit :> ERec(<<>>, {}, {TAll})) @@ (TAll :> NoData)
 
 ActCtx == { <<TView, [flag |-> <<"bool", TRUE>>]>>, <<TView, [flag |-> <<"bool", FALSE>>]>>,
